@@ -211,21 +211,27 @@ func run(c caseSpec, keep func(remedy int, group string) bool) (map[int][]verdic
 			res := make([]verdict, len(reqs))
 			var ready atomic.Int32
 			var wg sync.WaitGroup
-			n := int32(len(reqs))
-			for j := range reqs {
+			workers := len(reqs)
+			if workers > 8 {
+				workers = 8 // each caller then issues several requests back to back
+			}
+			n := int32(workers)
+			for w := 0; w < workers; w++ {
 				wg.Add(1)
-				go func(j int) {
+				go func(w int) {
 					defer wg.Done()
 					ready.Add(1)
 					// barrier: all callers enter together (bounded spin, then yield, so
 					// that an oversubscribed machine does not burn its time slices here)
 					for spins := 0; ready.Load() < n; spins++ {
-						if spins > 20000 {
+						if spins > 5000 {
 							runtime.Gosched()
 						}
 					}
-					res[j] = decodeAction(h.plugin.OnRequest(reqs[j], sc))
-				}(j)
+					for j := w; j < len(reqs); j += workers {
+						res[j] = decodeAction(h.plugin.OnRequest(reqs[j], sc))
+					}
+				}(w)
 			}
 			wg.Wait()
 			out[i] = res
@@ -609,7 +615,7 @@ func genIntent(o genOpts) *rapid.Generator[intent] {
 		}
 		in.Group = rapid.IntRange(0, 2).Draw(t, "group")
 		if in.Kind == "burst" {
-			in.Others = rapid.SliceOfN(rapid.SampledFrom([]int{-1, -1, -1, -1, -1, -1, -1, 0, 1, 2}), 1, 7).Draw(t, "others")
+			in.Others = rapid.SliceOfN(rapid.SampledFrom([]int{-1, -1, -1, -1, -1, -1, -1, 0, 1, 2}), 1, 31).Draw(t, "others")
 		}
 		return in
 	})
